@@ -57,6 +57,13 @@ CLAIMED = {
         "Logging locations are identified by attribute / parameter name (_quic_logger, quic_logger, quic_logger_frames, secrets_log_file) and by the classes of quic/logger.py; purity of unresolved third-party calls comes from a small allow-list; R5 flags only values whose type is inferred (18 of 306 remain untyped and are counted, not failed).",
         "DESIGN.md#c20",
     ),
+    "C12": (
+        "other",
+        "who-may-write analysis of the ACK queue and ACK deadline over the whole package, CFG dominance (recording dominated by successful decryption; deadline cleared only after start_frame), CFG reachability (no path of the frame loop bypasses the ack-eliciting classification), def-use of the delivery-handler arguments, linear-arithmetic satisfiability of early-exit conditions against 'ACK overdue', constant folding of the delay constants",
+        "Soundness (only authenticated packets of the same space are ever recorded; pruning only on acknowledgement of an ACK frame, by a bound fixed when it was written; ACK frames encode that queue) is decided on all paths. For timeliness the plumbing is decided: classification on every frame path, arming, deadline visible to get_timer for every space, cleared only after emission, emission conditions, pacing bypass, local delay 1 ms <= advertised 25 ms.",
+        "The measured delay under a schedule is not decided (timing). The equality case ack_at == now of the pacing test was triaged as harmless (findings/c12_pacing_demo.py) and is not demanded.",
+        "DESIGN.md#c12",
+    ),
 }
 
 NOT_APPLICABLE = {
